@@ -7,8 +7,9 @@ CHECKS = {
         "subs": [
             {"pkg": "pure", "test": "TestRegressD2", "quick": 1, "thorough": 1, "shards": 1},
         {"pkg": "pure", "test": "TestC17LWW", "quick": 20000, "thorough": 1000000, "shards_quick": 8, "shards_thorough": 16},
+        {"pkg": "sim", "test": "TestC17Observer", "quick": 1500, "thorough": 60000, "shards_quick": 4, "shards_thorough": 8},
         ],
-        "engine": "PURE",
+        "engine": "PURE+SIM",
         "level_text": "Stateful property-based test: generated upsert/delete/compact/leave sequences on the real gossip state object are compared step by step with a reference last-write-wins map (visible keys, tombstones, version freshness, no-op detection, compaction effects). Exploration only: shows the property for the generated sequences.",
         "technique": "model-based stateful PBT (rapid) vs reference map",
         "assumptions": ["keys outside the reserved _internal: prefix", "CompactLocal threshold >= 1 (the only caller passes 100)"],
@@ -95,6 +96,9 @@ CHECKS["C13"] = {
         {"pkg": "pure", "test": "TestC13Digest", "quick": 600, "thorough": 40000, "shards_quick": 3, "shards_thorough": 8},
         {"pkg": "pure", "test": "TestC13GossipSender", "quick": 100, "thorough": 3000, "shards_quick": 3, "shards_thorough": 8},
         {"pkg": "pure", "test": "TestC13Hostile", "quick": 30000, "thorough": 3000000, "shards_quick": 6, "shards_thorough": 16},
+        {"pkg": "fuzz", "fuzz": "FuzzHandlePacket", "quick": 1, "thorough": 1, "fuzztime_thorough": 150, "workers": 16},
+        {"pkg": "fuzz", "fuzz": "FuzzHandleStream", "quick": 1, "thorough": 1, "fuzztime_thorough": 150, "workers": 16},
+        {"pkg": "fuzz", "fuzz": "FuzzDeltaRoundTrip", "quick": 1, "thorough": 1, "fuzztime_thorough": 90, "workers": 16},
         {"pkg": "sim", "test": "TestC13Sim", "quick": 2000, "thorough": 80000, "shards_quick": 4, "shards_thorough": 8},
     ],
     "engine": "PURE+SIM",
